@@ -344,7 +344,9 @@ func (g *Gen) RefEqBits(t *Ty) string {
 		body = fmt.Sprintf("\tfor i := 0; i < len(a); i++ {\n\t\tif !%s(a[i], b[i]) {\n\t\t\treturn false\n\t\t}\n\t}\n\treturn true\n", g.RefEqBits(u.Elem))
 	case "map":
 		keyCheck := ""
-		if u.Key.contains(func(x *Ty) bool { return x.K == "basic" && (strings.HasPrefix(x.Name, "float") || strings.HasPrefix(x.Name, "complex")) }) {
+		if u.Key.contains(func(x *Ty) bool {
+			return x.K == "basic" && (strings.HasPrefix(x.Name, "float") || strings.HasPrefix(x.Name, "complex"))
+		}) {
 			keyCheck = fmt.Sprintf("\t\tfor k2 := range b {\n\t\t\tif k2 == k && !%s(k, k2) {\n\t\t\t\treturn false\n\t\t\t}\n\t\t}\n", g.RefEqBits(u.Key))
 		}
 		body = fmt.Sprintf("\tif a == nil || b == nil {\n\t\treturn a == nil && b == nil\n\t}\n\tif len(a) != len(b) {\n\t\treturn false\n\t}\n\tfor k, v := range a {\n\t\tw, ok := b[k]\n\t\tif !ok || !%s(v, w) {\n\t\t\treturn false\n\t\t}\n%s\t}\n\treturn true\n", g.RefEqBits(u.Elem), keyCheck)
